@@ -42,6 +42,8 @@ for _f in sorted(glob.glob(str(VERIF / "harness" / "manifest_entries" / "*.json"
 
 # tie paragraphs (and one wording correction) for the entries that live in the CHECKS table above
 CHECKS["C07"]["tie"] = CHECKS["C07"]["tie"] + " " + json.load(open(VERIF / "harness" / "manifest_tie_add.json"))["C07"]
+CHECKS["C14"]["tie"] = json.load(open(VERIF / "harness" / "manifest_tie_add.json"))["C14_tie"]
+CHECKS["C14"]["tie_tool"] = "harness/orchtrans.py, an AST walker over compute(), its stage classes and the result-store decorators"
 for _k, _v in json.load(open(VERIF / "harness" / "manifest_ties_taus.json")).items():
     CHECKS[_k]["tie"] = _v["tie"]
     if "text_replace" in _v:
